@@ -5,7 +5,7 @@
 # /verif stay free for other work. Prints one line per change; never touches seeded/*/meta.json.
 set -u
 SEED="$1"; shift
-BG=/tmp/bg
+BG=${BG_DIR:-/tmp/bg}
 if [ ! -d $BG/verif ] || [ "${BG_REFRESH:-0}" = "1" ]; then
   rm -rf $BG; mkdir -p $BG
   git clone -q /repo $BG/repo
